@@ -46,7 +46,6 @@ import (
 	"sort"
 	"strings"
 	"sync"
-	"sync/atomic"
 	"time"
 
 	"github.com/safing/portbase/api"
@@ -84,11 +83,23 @@ type Cell struct {
 	Local    bool   `json:"reader_local"`
 	Internal bool   `json:"reader_internal"`
 	Cache    string `json:"cache"` // none | cold | warm-get | warm-put
-	Path     string `json:"path"`
+	// ReaderOpts: further options of the reader's interface: "" | always-secret | always-crown | always-expiry
+	ReaderOpts string `json:"reader_opts,omitempty"`
+	// Pre: an access of the same reader that precedes the access under test (after the marking)
+	Pre  string `json:"first_access,omitempty"`
+	Path string `json:"path"`
 }
 
 func (c Cell) String() string {
-	return fmt.Sprintf("%s/shadow=%v/%s/d%d/%s/%s/L=%v,I=%v/%s/%s", c.Backend, c.Shadow, c.Rec, c.Depth, c.Flags, c.Marking, c.Local, c.Internal, c.Cache, c.Path)
+	p := c.Path
+	if c.Pre != "" {
+		p = c.Pre + ">" + c.Path
+	}
+	ro := ""
+	if c.ReaderOpts != "" {
+		ro = "+" + c.ReaderOpts
+	}
+	return fmt.Sprintf("%s/shadow=%v/%s/d%d/%s/%s/L=%v,I=%v%s/%s/%s", c.Backend, c.Shadow, c.Rec, c.Depth, c.Flags, c.Marking, c.Local, c.Internal, ro, c.Cache, p)
 }
 
 func (c Cell) secret() bool { return c.Flags == "secret" || c.Flags == "both" }
@@ -190,10 +201,9 @@ func (p *memProvider) remove(key string) {
 }
 
 var (
-	tmpRoot     string
-	privileged  *database.Interface
-	cfgRegLock  sync.Mutex
-	cellCounter int64
+	tmpRoot    string
+	privileged *database.Interface
+	cfgRegLock sync.Mutex
 )
 
 func setup(c *vlib.Ctx, withBadger bool) error {
@@ -295,6 +305,7 @@ type obs struct {
 	Secret bool   `json:"secret"`
 	Crown  bool   `json:"crown"`
 	Via    string `json:"via"`
+	Path   string `json:"path"`
 }
 
 func observe(r record.Record, via string) obs {
@@ -490,20 +501,22 @@ func apiObs(m apiMsg, via string) obs {
 // ---------- one cell ----------
 
 type result struct {
-	cell      Cell
-	denied    bool // the oracle applies: the reader lacks a privilege the marks require
-	success   bool // positive-control sense: the access did what it is for
-	outcome   string
-	leaks     []obs
-	stale     bool
-	checkMod  bool
-	before    string
-	after     string
-	witnessOK bool // the unmarked sibling was returned/listed/fed in the same access
-	trace     []string
-	calls     int64
-	engineErr string
-	panicked  string
+	cell            Cell
+	denied          bool // the oracle applies: the reader lacks a privilege the marks require
+	success         bool // positive-control sense: the access did what it is for
+	outcome         string
+	leaks           []obs
+	stale           bool
+	checkMod        bool
+	before          string
+	after           string
+	witnessOK       bool   // the unmarked sibling was returned/listed/fed in the same access
+	modBy           string // the access path after which the stored record differed
+	fedWhileAllowed int    // pushes of the record at a step at which its marks did not exclude the reader
+	trace           []string
+	calls           int64
+	engineErr       string
+	panicked        string
 }
 
 func runCell(cell Cell, idx int64) (res result) {
@@ -552,6 +565,10 @@ func runCell(cell Cell, idx int64) (res result) {
 			b.prov.remove(tKey)
 			b.prov.remove(nKey)
 		}
+		if b.kind == "config" {
+			config.VerifUnregister(tKey)
+			config.VerifUnregister(nKey)
+		}
 	}()
 
 	W := privileged
@@ -565,7 +582,16 @@ func runCell(cell Cell, idx int64) (res result) {
 	if cell.isAPI() {
 		conn = newAPIConn() // database.NewInterface(nil) inside: neither local nor internal, no cache
 	} else {
-		reader = database.NewInterface(&database.Options{Local: cell.Local, Internal: cell.Internal, CacheSize: cacheSize})
+		opts := &database.Options{Local: cell.Local, Internal: cell.Internal, CacheSize: cacheSize}
+		switch cell.ReaderOpts {
+		case "always-secret":
+			opts.AlwaysMakeSecret = true
+		case "always-crown":
+			opts.AlwaysMakeCrownjewel = true
+		case "always-expiry":
+			opts.AlwaysSetAbsoluteExpiry = farFuture
+		}
+		reader = database.NewInterface(opts)
 	}
 
 	// 1. privileged writes before the marking
@@ -592,93 +618,147 @@ func runCell(cell Cell, idx int64) (res result) {
 		}
 	}
 
-	// feeds that are opened before the marking
-	q := query.New(b.db + ":" + dir)
-	var sub *database.Subscription
-	var apiFeed []apiMsg
-	switch cell.Path {
-	case "Subscribe-writes":
-		s, err := reader.Subscribe(q)
-		if step("reader.Subscribe(dir)", err) != nil {
-			return fail("Subscribe", err)
-		}
-		sub = s
-	case "api:sub":
-		res.calls++
-		conn.h.Handle([]byte("1|sub|query " + b.db + ":" + dir))
-		deadline := time.Now().Add(guardWait)
-		for !database.VerifHasSub(b.db, dir) {
-			select {
-			case raw := <-conn.ch:
-				return fail("api sub", errors.New(string(raw)))
-			default:
-			}
-			if time.Now().After(deadline) {
-				return fail("api sub", errGuard)
-			}
-			runtime.Gosched()
-		}
-		res.trace = append(res.trace, "api 1|sub|query dir -> registered")
+	// 3. the marking, as a list of privileged steps with the marks the record carries after each
+	type mstep struct {
+		name          string
+		do            func() error
+		secret, crown bool
 	}
-
-	// 3. the marking
+	var steps []mstep
 	switch cell.Marking {
 	case "plain":
-		if err := step("W.Put(t=v2)", W.Put(newRec(cell.Rec, fullT, "v2"))); err != nil {
-			return fail("Put", err)
-		}
+		steps = append(steps, mstep{"W.Put(t=v2)", func() error { return W.Put(newRec(cell.Rec, fullT, "v2")) }, false, false})
 	case "flagged-put":
-		r := newRec(cell.Rec, fullT, "v2")
-		r.UpdateMeta()
-		if cell.secret() {
-			r.Meta().MakeSecret()
-		}
-		if cell.crown() {
-			r.Meta().MakeCrownJewel()
-		}
-		if err := step("W.Put(t=v2 flagged "+cell.Flags+")", W.Put(r)); err != nil {
-			return fail("Put flagged", err)
-		}
+		steps = append(steps, mstep{"W.Put(t=v2 flagged " + cell.Flags + ")", func() error {
+			r := newRec(cell.Rec, fullT, "v2")
+			r.UpdateMeta()
+			if cell.secret() {
+				r.Meta().MakeSecret()
+			}
+			if cell.crown() {
+				r.Meta().MakeCrownJewel()
+			}
+			return W.Put(r)
+		}, cell.secret(), cell.crown()})
 	case "always-opts":
-		if err := step("WO.Put(t=v2) [Always* "+cell.Flags+"]", WO.Put(newRec(cell.Rec, fullT, "v2"))); err != nil {
-			return fail("Put through Always* interface", err)
-		}
+		steps = append(steps, mstep{"WO.Put(t=v2) [Always* " + cell.Flags + "]", func() error { return WO.Put(newRec(cell.Rec, fullT, "v2")) }, cell.secret(), cell.crown()})
 	case "reflag":
 		if cell.secret() {
-			if err := step("W.MakeSecret(t)", W.MakeSecret(fullT)); err != nil {
-				return fail("MakeSecret", err)
-			}
+			steps = append(steps, mstep{"W.MakeSecret(t)", func() error { return W.MakeSecret(fullT) }, true, false})
 		}
 		if cell.crown() {
-			if err := step("W.MakeCrownJewel(t)", W.MakeCrownJewel(fullT)); err != nil {
-				return fail("MakeCrownJewel", err)
-			}
+			steps = append(steps, mstep{"W.MakeCrownJewel(t)", func() error { return W.MakeCrownJewel(fullT) }, cell.secret(), true})
 		}
-		if err := step("W.InsertValue(t,Value=v2)", W.InsertValue(fullT, "Value", "v2")); err != nil {
-			return fail("InsertValue", err)
-		}
+		steps = append(steps, mstep{"W.InsertValue(t,Value=v2)", func() error { return W.InsertValue(fullT, "Value", "v2") }, cell.secret(), cell.crown()})
 	}
 
-	// 4. which privileges does the record require now
-	isSecret, isCrown := cell.secret(), cell.crown()
-	if b.readback {
-		pr, err := W.Get(fullT)
-		if err != nil {
-			return fail("read-back of the marks", err)
-		}
-		o := observe(pr, "readback")
-		isSecret, isCrown = o.Secret, o.Crown
-		res.trace = append(res.trace, fmt.Sprintf("marks after marking (read-back): secret=%v crown=%v", isSecret, isCrown))
-	}
 	rLocal, rInternal := cell.Local, cell.Internal
 	if cell.isAPI() {
 		rLocal, rInternal = false, false
 	}
-	res.denied = (isSecret && !rInternal) || (isCrown && !rLocal)
+	// deniedFor says whether the reader lacks a privilege that the given marks require
+	var setupErr error
+	deniedFor := func(secret, crown bool) bool {
+		if b.readback {
+			pr, err := W.Get(fullT)
+			if err != nil {
+				setupErr = err
+				return false
+			}
+			o := observe(pr, "readback")
+			secret, crown = o.Secret, o.Crown
+			res.trace = append(res.trace, fmt.Sprintf("marks (read-back): secret=%v crown=%v", secret, crown))
+		}
+		return (secret && !rInternal) || (crown && !rLocal)
+	}
+
+	curPath := cell.Path
+	seeT := func(o obs) {
+		o.Path = curPath
+		res.leaks = append(res.leaks, o)
+	}
+	q := query.New(b.db + ":" + dir)
+	var sub *database.Subscription
+	var apiFeed []apiMsg
+	// drainFeed empties the reader's feed; deniedNow says whether the record, as it is
+	// marked at this point of the history, requires a privilege the reader lacks.
+	drainFeed := func(deniedNow bool) {
+		for {
+			select {
+			case r := <-sub.Feed:
+				if r == nil {
+					return
+				}
+				switch r.Key() {
+				case fullT:
+					if deniedNow {
+						seeT(observe(r, "feed"))
+					} else {
+						res.fedWhileAllowed++
+					}
+				case fullN:
+					res.witnessOK = true
+				}
+			default:
+				return
+			}
+		}
+	}
+
+	// A feed of the reader is opened before the first marking step (Interface.Subscribe:
+	// every push is judged right after the step that caused it, against the marks of that
+	// step) or before the last one (API: its replies arrive asynchronously, so the feed is
+	// opened when the record already carries its final marks).
+	openAt := -1
+	switch cell.Path {
+	case "Subscribe-writes":
+		openAt = 0
+	case "api:sub":
+		openAt = len(steps) - 1
+	}
+	for i, st := range steps {
+		if i == openAt {
+			switch cell.Path {
+			case "Subscribe-writes":
+				s, err := reader.Subscribe(q)
+				if step("reader.Subscribe(dir)", err) != nil {
+					return fail("Subscribe", err)
+				}
+				sub = s
+			case "api:sub":
+				res.calls++
+				conn.h.Handle([]byte("1|sub|query " + b.db + ":" + dir))
+				deadline := time.Now().Add(guardWait)
+				for !database.VerifHasSub(b.db, dir) {
+					select {
+					case raw := <-conn.ch:
+						return fail("api sub", errors.New(string(raw)))
+					default:
+					}
+					if time.Now().After(deadline) {
+						return fail("api sub", errGuard)
+					}
+					runtime.Gosched()
+				}
+				res.trace = append(res.trace, "api 1|sub|query dir -> registered")
+			}
+		}
+		if err := step(st.name, st.do()); err != nil {
+			return fail(st.name, err)
+		}
+		if sub != nil {
+			drainFeed(deniedFor(st.secret, st.crown))
+		}
+	}
+
+	// 4. which privileges does the record require now
+	res.denied = deniedFor(cell.secret(), cell.crown())
+	if setupErr != nil {
+		return fail("read-back of the marks", setupErr)
+	}
 
 	// 5. the access under test
 	res.before = snap(b, tKey)
-	seeT := func(o obs) { res.leaks = append(res.leaks, o) }
 	drainQuery := func(qq *query.Query, name string) {
 		it, err := reader.Query(qq)
 		if step("reader."+name, err) != nil {
@@ -696,24 +776,6 @@ func runCell(cell Cell, idx int64) (res result) {
 			}
 		}
 		res.outcome = "query-done-" + errClass(it.Err())
-	}
-	drainFeed := func() {
-		for {
-			select {
-			case r := <-sub.Feed:
-				if r == nil {
-					return
-				}
-				switch r.Key() {
-				case fullT:
-					seeT(observe(r, "feed"))
-				case fullN:
-					res.witnessOK = true
-				}
-			default:
-				return
-			}
-		}
 	}
 	// privileged writes while a feed is open: update of the marked record, update of the
 	// sibling, deletion of the marked record
@@ -773,173 +835,216 @@ func runCell(cell Cell, idx int64) (res result) {
 		res.trace = append(res.trace, "api "+msg+" -> "+res.outcome)
 	}
 
-	res.checkMod = true
-	switch cell.Path {
-	case "Get":
-		r, err := reader.Get(fullT)
-		_ = step("reader.Get(t)", err)
-		if r != nil {
-			seeT(observe(r, "get"))
-		}
-		res.success = err == nil && r != nil
-		res.outcome = "get-" + errClass(err)
-	case "Exists":
-		ok, err := reader.Exists(fullT)
-		_ = step(fmt.Sprintf("reader.Exists(t)=%v", ok), err)
-		res.success = err == nil && ok
-		res.outcome = fmt.Sprintf("exists-%v-%s", ok, errClass(err))
-	case "Query-prefix":
-		drainQuery(q, "Query(dir)")
-		res.success = len(res.leaks) > 0
-	case "Query-key":
-		drainQuery(query.New(fullT), "Query(key of t)")
-		res.success = len(res.leaks) > 0
-	case "Query-cond":
-		drainQuery(query.New(b.db+":"+dir).Where(query.Where("Value", query.SameAs, "v2")), "Query(dir where Value sameas v2)")
-		res.success = len(res.leaks) > 0
-	case "Subscribe-writes":
-		res.checkMod = false
-		drainFeed() // the pushes of the marking itself
-		postWrites()
-		drainFeed()
-		_ = sub.Cancel()
-		res.success = len(res.leaks) > 0
-		res.outcome = "feed-drained"
-	case "Subscribe-push":
-		res.checkMod = false
-		s, err := reader.Subscribe(q)
-		if step("reader.Subscribe(dir)", err) != nil {
-			return fail("Subscribe", err)
-		}
-		sub = s
-		pushBoth()
-		drainFeed()
-		_ = sub.Cancel()
-		res.success = len(res.leaks) > 0
-		res.outcome = "feed-drained"
-	case "InsertValue":
-		err := step("reader.InsertValue(t,Value=vR)", reader.InsertValue(fullT, "Value", "vR"))
-		res.success, res.outcome = err == nil, "write-"+errClass(err)
-	case "SetAbsoluteExpiry":
-		err := step("reader.SetAbsoluteExpiry(t)", reader.SetAbsoluteExpiry(fullT, farFuture))
-		res.success, res.outcome = err == nil, "write-"+errClass(err)
-	case "SetRelativateExpiry":
-		err := step("reader.SetRelativateExpiry(t)", reader.SetRelativateExpiry(fullT, 3600))
-		res.success, res.outcome = err == nil, "write-"+errClass(err)
-	case "MakeSecret":
-		err := step("reader.MakeSecret(t)", reader.MakeSecret(fullT))
-		res.success, res.outcome = err == nil, "write-"+errClass(err)
-	case "MakeCrownJewel":
-		err := step("reader.MakeCrownJewel(t)", reader.MakeCrownJewel(fullT))
-		res.success, res.outcome = err == nil, "write-"+errClass(err)
-	case "Put":
-		err := step("reader.Put(t=vR)", reader.Put(newRec(cell.Rec, fullT, "vR")))
-		res.success, res.outcome = err == nil, "write-"+errClass(err)
-	case "PutNew":
-		err := step("reader.PutNew(t=vR)", reader.PutNew(newRec(cell.Rec, fullT, "vR")))
-		res.success, res.outcome = err == nil, "write-"+errClass(err)
-	case "Delete":
-		err := step("reader.Delete(t)", reader.Delete(fullT))
-		res.success, res.outcome = err == nil, "write-"+errClass(err)
-	case "Purge":
-		n, err := reader.Purge(context.Background(), q)
-		_ = step(fmt.Sprintf("reader.Purge(dir)=%d", n), err)
-		res.success, res.outcome = err == nil, "purge-"+errClass(err)
-	case "PutMany":
-		put := reader.PutMany(b.db)
-		e1 := step("reader.PutMany: put(t=vR)", put(newRec(cell.Rec, fullT, "vR")))
-		e2 := step("reader.PutMany: put(nil)", put(nil))
-		res.success = e1 == nil && e2 == nil
-		res.outcome = "putmany-" + errClass(e1) + "-" + errClass(e2)
-	case "api:get":
-		res.calls++
-		conn.h.Handle([]byte("1|get|" + fullT))
-		m, err := conn.await(nil, "ok", "error")
-		if err != nil {
-			res.engineErr = fmt.Sprintf("%s: %v", cell, err)
-			break
-		}
-		if m.typ == "ok" {
-			res.success = true
-			seeT(apiObs(m, "api"))
-			res.outcome = "api-ok"
-		} else {
-			res.outcome = "api-error-" + apiErrClass(m.key)
-		}
-		res.trace = append(res.trace, "api 1|get|t -> "+res.outcome)
-	case "api:query":
-		res.calls++
-		var msgs []apiMsg
-		conn.h.Handle([]byte("1|query|query " + b.db + ":" + dir))
-		m, err := conn.await(&msgs, "done", "error")
-		if err != nil {
-			res.engineErr = fmt.Sprintf("%s: %v", cell, err)
-			break
-		}
-		apiFeedJudge(msgs)
-		res.success = len(res.leaks) > 0
-		res.outcome = "api-query-" + m.typ
-		res.trace = append(res.trace, fmt.Sprintf("api 1|query|query dir -> %d replies, %s", len(msgs), m.typ))
-	case "api:sub":
-		res.checkMod = false
-		postWrites()
-		if err := conn.cancel("1", &apiFeed); err != nil {
-			res.engineErr = fmt.Sprintf("%s: %v", cell, err)
-			break
-		}
-		apiFeedJudge(apiFeed)
-		res.success = len(res.leaks) > 0
-		res.outcome = "api-feed-done"
-		res.trace = append(res.trace, fmt.Sprintf("api 1|cancel -> %d replies, done", len(apiFeed)))
-	case "api:qsub":
-		res.checkMod = false
-		res.calls++
-		conn.h.Handle([]byte("1|qsub|query " + b.db + ":" + dir))
-		m, err := conn.await(&apiFeed, "done", "error")
-		if err != nil {
-			res.engineErr = fmt.Sprintf("%s: %v", cell, err)
-			break
-		}
-		if m.typ == "error" {
+	access := func(path string) {
+		curPath = path
+		switch path {
+		case "Get":
+			r, err := reader.Get(fullT)
+			_ = step("reader.Get(t)", err)
+			if r != nil {
+				seeT(observe(r, "get"))
+			}
+			res.success = err == nil && r != nil
+			res.outcome = "get-" + errClass(err)
+		case "Exists":
+			ok, err := reader.Exists(fullT)
+			_ = step(fmt.Sprintf("reader.Exists(t)=%v", ok), err)
+			res.success = err == nil && ok
+			res.outcome = fmt.Sprintf("exists-%v-%s", ok, errClass(err))
+		case "Query-prefix":
+			drainQuery(q, "Query(dir)")
+			res.success = len(res.leaks) > 0
+		case "Query-key":
+			drainQuery(query.New(fullT), "Query(key of t)")
+			res.success = len(res.leaks) > 0
+		case "Query-cond":
+			drainQuery(query.New(b.db+":"+dir).Where(query.Where("Value", query.SameAs, "v2")), "Query(dir where Value sameas v2)")
+			res.success = len(res.leaks) > 0
+		case "Subscribe-writes":
+			res.checkMod = false
+			postWrites()
+			drainFeed(res.denied)
+			_ = sub.Cancel()
+			res.success = len(res.leaks) > 0 || res.fedWhileAllowed > 0
+			res.outcome = "feed-drained"
+		case "Subscribe-push":
+			res.checkMod = false
+			s, err := reader.Subscribe(q)
+			if step("reader.Subscribe(dir)", err) != nil {
+				res.engineErr = fmt.Sprintf("%s: Subscribe: %v", cell, err)
+				return
+			}
+			sub = s
+			pushBoth()
+			drainFeed(res.denied)
+			_ = sub.Cancel()
+			res.success = len(res.leaks) > 0 || res.fedWhileAllowed > 0
+			res.outcome = "feed-drained"
+		case "InsertValue":
+			err := step("reader.InsertValue(t,Value=vR)", reader.InsertValue(fullT, "Value", "vR"))
+			res.success, res.outcome = err == nil, "write-"+errClass(err)
+		case "SetAbsoluteExpiry":
+			err := step("reader.SetAbsoluteExpiry(t)", reader.SetAbsoluteExpiry(fullT, farFuture))
+			res.success, res.outcome = err == nil, "write-"+errClass(err)
+		case "SetRelativateExpiry":
+			err := step("reader.SetRelativateExpiry(t)", reader.SetRelativateExpiry(fullT, 3600))
+			res.success, res.outcome = err == nil, "write-"+errClass(err)
+		case "MakeSecret":
+			err := step("reader.MakeSecret(t)", reader.MakeSecret(fullT))
+			res.success, res.outcome = err == nil, "write-"+errClass(err)
+		case "MakeCrownJewel":
+			err := step("reader.MakeCrownJewel(t)", reader.MakeCrownJewel(fullT))
+			res.success, res.outcome = err == nil, "write-"+errClass(err)
+		case "Put":
+			err := step("reader.Put(t=vR)", reader.Put(newRec(cell.Rec, fullT, "vR")))
+			res.success, res.outcome = err == nil, "write-"+errClass(err)
+		case "PutNew":
+			err := step("reader.PutNew(t=vR)", reader.PutNew(newRec(cell.Rec, fullT, "vR")))
+			res.success, res.outcome = err == nil, "write-"+errClass(err)
+		case "Delete":
+			err := step("reader.Delete(t)", reader.Delete(fullT))
+			res.success, res.outcome = err == nil, "write-"+errClass(err)
+		case "Purge":
+			n, err := reader.Purge(context.Background(), q)
+			_ = step(fmt.Sprintf("reader.Purge(dir)=%d", n), err)
+			res.success, res.outcome = err == nil, "purge-"+errClass(err)
+		case "PutMany":
+			put := reader.PutMany(b.db)
+			// On a backend without batch support the error is delivered by either the first
+			// or the finishing call (a select between two ready channels in PutMany), and the
+			// finishing call blocks for ever if the first one already took it: finish only
+			// after a successful first call and report the first error of the two.
+			err := put(newRec(cell.Rec, fullT, "vR"))
+			if err == nil {
+				err = put(nil)
+			}
+			res.calls++
+			_ = step("reader.PutMany: put(t=vR); put(nil)", err)
+			res.success = err == nil
+			res.outcome = "putmany-" + errClass(err)
+		case "api:get":
+			res.calls++
+			conn.h.Handle([]byte("1|get|" + fullT))
+			m, err := conn.await(nil, "ok", "error")
+			if err != nil {
+				res.engineErr = fmt.Sprintf("%s: %v", cell, err)
+				break
+			}
+			if m.typ == "ok" {
+				res.success = true
+				seeT(apiObs(m, "api"))
+				res.outcome = "api-ok"
+			} else {
+				res.outcome = "api-error-" + apiErrClass(m.key)
+			}
+			res.trace = append(res.trace, "api 1|get|t -> "+res.outcome)
+		case "api:query":
+			res.calls++
+			var msgs []apiMsg
+			conn.h.Handle([]byte("1|query|query " + b.db + ":" + dir))
+			m, err := conn.await(&msgs, "done", "error")
+			if err != nil {
+				res.engineErr = fmt.Sprintf("%s: %v", cell, err)
+				break
+			}
+			apiFeedJudge(msgs)
+			res.success = len(res.leaks) > 0
+			res.outcome = "api-query-" + m.typ
+			res.trace = append(res.trace, fmt.Sprintf("api 1|query|query dir -> %d replies, %s", len(msgs), m.typ))
+		case "api:sub":
+			res.checkMod = false
+			postWrites()
+			if err := conn.cancel("1", &apiFeed); err != nil {
+				res.engineErr = fmt.Sprintf("%s: %v", cell, err)
+				break
+			}
 			apiFeedJudge(apiFeed)
-			res.outcome = "api-qsub-error-" + apiErrClass(m.key)
-			break
+			res.success = len(res.leaks) > 0
+			res.outcome = "api-feed-done"
+			res.trace = append(res.trace, fmt.Sprintf("api 1|cancel -> %d replies, done", len(apiFeed)))
+		case "api:qsub":
+			res.checkMod = false
+			res.calls++
+			conn.h.Handle([]byte("1|qsub|query " + b.db + ":" + dir))
+			m, err := conn.await(&apiFeed, "done", "error")
+			if err != nil {
+				res.engineErr = fmt.Sprintf("%s: %v", cell, err)
+				break
+			}
+			if m.typ == "error" {
+				apiFeedJudge(apiFeed)
+				res.outcome = "api-qsub-error-" + apiErrClass(m.key)
+				break
+			}
+			postWrites()
+			if err := conn.cancel("1", &apiFeed); err != nil {
+				res.engineErr = fmt.Sprintf("%s: %v", cell, err)
+				break
+			}
+			apiFeedJudge(apiFeed)
+			res.success = len(res.leaks) > 0
+			res.outcome = "api-feed-done"
+			res.trace = append(res.trace, fmt.Sprintf("api 1|qsub|query dir ... 1|cancel -> %d replies, done", len(apiFeed)))
+		case "api:create":
+			apiWrite("1|create|" + fullT + `|J{"Value":"vR"}`)
+		case "api:update":
+			apiWrite("1|update|" + fullT + `|J{"Value":"vR"}`)
+		case "api:insert":
+			apiWrite("1|insert|" + fullT + `|{"Value":"vR"}`)
+		case "api:delete":
+			apiWrite("1|delete|" + fullT)
+		default:
+			res.engineErr = "unknown path " + path
 		}
-		postWrites()
-		if err := conn.cancel("1", &apiFeed); err != nil {
-			res.engineErr = fmt.Sprintf("%s: %v", cell, err)
-			break
-		}
-		apiFeedJudge(apiFeed)
-		res.success = len(res.leaks) > 0
-		res.outcome = "api-feed-done"
-		res.trace = append(res.trace, fmt.Sprintf("api 1|qsub|query dir ... 1|cancel -> %d replies, done", len(apiFeed)))
-	case "api:create":
-		apiWrite("1|create|" + fullT + `|J{"Value":"vR"}`)
-	case "api:update":
-		apiWrite("1|update|" + fullT + `|J{"Value":"vR"}`)
-	case "api:insert":
-		apiWrite("1|insert|" + fullT + `|{"Value":"vR"}`)
-	case "api:delete":
-		apiWrite("1|delete|" + fullT)
-	default:
-		res.engineErr = "unknown path " + cell.Path
 	}
+
+	if cell.Pre != "" {
+		access(cell.Pre)
+		if res.engineErr != "" {
+			return res
+		}
+		res.trace = append(res.trace, "(first access: "+res.outcome+")")
+		if mid := snap(b, tKey); res.denied && mid != res.before {
+			// the first access already changed the record: report that and stop here,
+			// everything after it would only show consequences of this change
+			res.after, res.checkMod, res.modBy = mid, true, cell.Pre
+			res.outcome = "first-access-changed-storage"
+			res.leaks = filterStale(cell, &res)
+			return res
+		}
+		res.success, res.outcome, res.witnessOK, res.fedWhileAllowed = false, "", false, 0
+	}
+	res.checkMod, res.modBy = true, cell.Path
+	access(cell.Path)
 	res.after = snap(b, tKey)
 
 	// A reader whose own cache was filled before the marking may be served that
 	// outdated copy again (documented for Options.CacheSize); it holds nothing that
 	// was written while the record was marked.
-	if res.denied && cell.warm() && cell.Path == "Get" && len(res.leaks) == 1 {
-		if o := res.leaks[0]; !o.Secret && !o.Crown && o.Value == "v1" {
-			res.stale = true
-			res.leaks = nil
-		}
-	}
+	res.leaks = filterStale(cell, &res)
 	for _, o := range res.leaks {
 		res.trace = append(res.trace, fmt.Sprintf("reader saw %s value=%q secret=%v crown=%v via %s", o.Key, o.Value, o.Secret, o.Crown, o.Via))
 	}
 	return res
+}
+
+// filterStale removes the outdated unmarked copies a warm cache served to a direct get.
+func filterStale(cell Cell, res *result) []obs {
+	if !res.denied || !cell.warm() {
+		return res.leaks
+	}
+	var keep []obs
+	for _, o := range res.leaks {
+		// content v1 is only ever written before the marking; the copy carries the marks it
+		// had then (none, or those the reader's own Always* options put on it), which do
+		// not exclude the reader
+		if o.Via == "get" && o.Value == "v1" && !((o.Secret && !cell.Internal) || (o.Crown && !cell.Local)) {
+			res.stale = true
+			continue
+		}
+		keep = append(keep, o)
+	}
+	return keep
 }
 
 func safeRunCell(cell Cell, idx int64) result {
@@ -966,28 +1071,57 @@ func judge(c *vlib.Ctx, r result) (violated bool) {
 	}
 	w := witness{Cell: r.cell, Trace: r.trace}
 	if len(r.leaks) > 0 {
-		disc := map[string]string{"get": "record-returned", "query": "record-listed", "feed": "record-fed"}[pathFamily(r.cell.Path)]
+		o := r.leaks[0]
+		disc := map[string]string{"get": "record-returned", "query": "record-listed", "feed": "record-fed"}[pathFamily(o.Path)]
 		if disc == "" {
 			disc = "record-returned"
 		}
-		o := r.leaks[0]
-		c.Violate("no-disclosure", r.cell.Path, disc,
+		c.Violate("no-disclosure", o.Path, disc,
 			fmt.Sprintf("a reader with Local=%v Internal=%v received record %s (value %q) although it is marked %s; cell %s",
 				r.cell.Local && !r.cell.isAPI(), r.cell.Internal && !r.cell.isAPI(), o.Key, o.Value, r.cell.Flags, r.cell), w)
 		violated = true
 	}
 	if r.checkMod && r.before != r.after {
-		site := r.cell.Path
+		site := r.modBy
 		if r.cell.warm() {
-			site = "warm-cache/" + pathFamily(r.cell.Path)
+			site = "warm-cache/" + pathFamily(r.modBy)
 		}
 		w.Before, w.After = r.before, r.after
 		c.Violate("no-modification", site, "storage-changed",
 			fmt.Sprintf("a reader with Local=%v Internal=%v changed the stored record marked %s through %s; cell %s\nbefore: %s\nafter:  %s",
-				r.cell.Local && !r.cell.isAPI(), r.cell.Internal && !r.cell.isAPI(), r.cell.Flags, r.cell.Path, r.cell, r.before, r.after), w)
+				r.cell.Local && !r.cell.isAPI(), r.cell.Internal && !r.cell.isAPI(), r.cell.Flags, r.modBy, r.cell, r.before, r.after), w)
 		violated = true
 	}
 	return violated
+}
+
+// violationSigs says which oracle clauses a result violates (judge reports them).
+func violationSigs(r result) []string {
+	if !r.denied {
+		return nil
+	}
+	var out []string
+	if len(r.leaks) > 0 {
+		out = append(out, "no-disclosure")
+	}
+	if r.checkMod && r.before != r.after {
+		out = append(out, "no-modification")
+	}
+	return out
+}
+
+// isSampleCell picks the cells that are written into the evidence as samples.
+func isSampleCell(c Cell) bool {
+	if c.Backend != "bbolt" || c.Shadow || c.Rec != "wrapper" || c.Depth != 1 || c.Cache != "none" {
+		return false
+	}
+	switch c.Path {
+	case "Get", "Query-prefix", "Subscribe-writes", "Delete", "Purge":
+		return c.Flags == "secret" && c.Marking == "reflag" && c.Local && !c.Internal
+	case "api:get", "api:qsub", "api:update":
+		return c.Flags == "crown" && c.Marking == "flagged-put"
+	}
+	return false
 }
 
 // ---------- enumeration ----------
@@ -997,6 +1131,8 @@ type group struct {
 	rec     string
 	depth   int
 	cache   string
+	ropts   string
+	pre     string
 	path    string
 }
 
@@ -1009,7 +1145,7 @@ func (g group) cells() []Cell {
 				continue // the API always acts as neither local nor internal
 			}
 			out = append(out, Cell{Backend: g.backend.kind, Shadow: g.backend.shadow, Rec: g.rec, Depth: g.depth,
-				Flags: fm.flags, Marking: fm.marking, Local: p[0], Internal: p[1], Cache: g.cache, Path: g.path})
+				Flags: fm.flags, Marking: fm.marking, Local: p[0], Internal: p[1], Cache: g.cache, ReaderOpts: g.ropts, Pre: g.pre, Path: g.path})
 		}
 	}
 	return out
@@ -1053,7 +1189,7 @@ func main() {
 			return
 		}
 
-		c.SetBudget(vlib.Pick(c, 150*time.Second, 25*time.Minute))
+		c.SetBudget(vlib.Pick(c, 170*time.Second, 25*time.Minute))
 		c.Rule("a cell is non-trivial if the reader lacks a privilege the record's marks require (the oracle applies) and the same access path succeeds in the same group for the unmarked record with a fully privileged reader (API paths: for the unmarked record)")
 		c.Assume("Options.DelayCachedWrites is not combined with a non-privileged interface (documented restriction), so delayed cached writes are not enumerated")
 		c.Assume("a reader whose own cache was filled before the record was marked may be served that outdated, unmarked copy again (documented for Options.CacheSize); such a copy holds nothing that was written while the record was marked and is not counted as disclosure")
@@ -1066,33 +1202,78 @@ func main() {
 			bks = append(bks, b)
 		}
 		sort.Slice(bks, func(i, j int) bool { return bks[i].id() < bks[j].id() })
-		recs := []string{"wrapper"}
-		depths := []int{1}
+		recs := []string{"wrapper", "struct"}
+		depths := []int{1, 2}
+		caches := []string{"none", "cold", "warm-get", "warm-put"}
+		readerOpts := []string{""}
+		seqCaches := []string{"none", "warm-get"}
 		if thorough {
-			recs = []string{"wrapper", "struct"}
-			depths = []int{1, 2}
+			readerOpts = []string{"", "always-secret", "always-crown", "always-expiry"}
+			seqCaches = caches
 		}
 		var groups []group
+		// (a) one access of the reader
 		for _, rec := range recs {
 			for _, depth := range depths {
 				for _, path := range append(append([]string{}, ifacePaths...), apiPaths...) {
-					for _, cache := range []string{"none", "cold", "warm-get", "warm-put"} {
-						if strings.HasPrefix(path, "api:") && cache != "none" {
+					isAPI := strings.HasPrefix(path, "api:")
+					for _, cache := range caches {
+						if isAPI && cache != "none" {
 							continue
 						}
-						for _, b := range bks {
-							groups = append(groups, group{b, rec, depth, cache, path})
+						for _, ro := range readerOpts {
+							if isAPI && ro != "" {
+								continue
+							}
+							for _, b := range bks {
+								groups = append(groups, group{backend: b, rec: rec, depth: depth, cache: cache, ropts: ro, path: path})
+							}
 						}
 					}
 				}
 			}
 		}
+		nSingle := len(groups)
+		// (b) two accesses of the same reader in a row: every non-feed access followed by every access
+		for _, pre := range ifacePaths {
+			if pathFamily(pre) == "feed" {
+				continue
+			}
+			for _, path := range ifacePaths {
+				for _, cache := range seqCaches {
+					for _, b := range bks {
+						groups = append(groups, group{backend: b, rec: "wrapper", depth: 1, cache: cache, pre: pre, path: path})
+					}
+				}
+			}
+		}
+		for _, pre := range apiPaths {
+			if pathFamily(pre) == "feed" {
+				continue
+			}
+			for _, path := range apiPaths {
+				for _, b := range bks {
+					groups = append(groups, group{backend: b, rec: "wrapper", depth: 1, cache: "none", pre: pre, path: path})
+				}
+			}
+		}
 
-		var (
-			mu        sync.Mutex
-			samples   = map[string]bool{}
-			nGroupsOK int64
-		)
+		// The groups run in parallel; what they found is merged afterwards in the fixed
+		// order of the enumeration, so that counts, first witnesses and samples do not
+		// depend on the scheduling of the workers.
+		type groupReport struct {
+			done       bool
+			cells      int64
+			calls      int64
+			outcomes   map[string]int64
+			nontrivial []string
+			unsupp     int64
+			panics     []string
+			engineErrs []string
+			violating  []result
+			samples    []result
+		}
+		reports := make([]groupReport, len(groups))
 		c.ParallelFor(len(groups), func(gi int) {
 			if c.Expired() {
 				return
@@ -1101,24 +1282,24 @@ func main() {
 			cells := g.cells()
 			results := make([]result, 0, len(cells))
 			controlOK := false
-			for _, cell := range cells {
-				r := safeRunCell(cell, atomic.AddInt64(&cellCounter, 1))
+			for ci, cell := range cells {
+				r := safeRunCell(cell, int64(gi)*1000+int64(ci)+1)
 				results = append(results, r)
 				if r.cell.Flags == "none" && (cell.isAPI() || (cell.Local && cell.Internal)) && r.success {
 					controlOK = true
 				}
 			}
-			atomic.AddInt64(&nGroupsOK, 1)
+			rep := groupReport{done: true, outcomes: map[string]int64{}}
 			for _, r := range results {
-				c.Add(1, r.calls, 1)
+				rep.cells++
+				rep.calls += r.calls
 				if r.engineErr != "" {
-					c.EngineError("%s", r.engineErr)
+					rep.engineErrs = append(rep.engineErrs, r.engineErr)
 					continue
 				}
 				if r.panicked != "" {
-					c.Outcome("panic/" + r.cell.Path)
-					c.ExtraAdd("panics_in_portbase_code", 1)
-					fmt.Fprintf(os.Stderr, "note: panic in cell %s: %s\n", r.cell, r.panicked)
+					rep.outcomes["panic/"+r.cell.Path]++
+					rep.panics = append(rep.panics, fmt.Sprintf("cell %s: %s", r.cell, r.panicked))
 					continue
 				}
 				class := "allowed"
@@ -1132,27 +1313,61 @@ func main() {
 				if r.denied && r.witnessOK {
 					oc += "/sibling-seen"
 				}
-				if len(r.leaks) > 0 {
+				if len(r.leaks) > 0 || r.fedWhileAllowed > 0 {
 					oc += "/record-seen"
 				}
-				c.Outcome(oc)
-				violated := judge(c, r)
+				rep.outcomes[oc]++
 				if r.denied && controlOK {
-					c.Nontrivial(r.cell.String())
+					rep.nontrivial = append(rep.nontrivial, r.cell.String())
 				}
 				if r.denied && !controlOK {
-					c.ExtraAdd("denied_cells_on_paths_the_backend_does_not_support", 1)
+					rep.unsupp++
 				}
-				// a few samples: one per (path family, denied?) for the first backends
-				key := fmt.Sprintf("%s/%v", pathFamily(r.cell.Path), r.denied)
-				mu.Lock()
-				if !samples[key] && !violated && r.cell.Flags != "none" && len(samples) < 10 {
-					samples[key] = true
-					c.Sample(map[string]any{"cell": r.cell, "privilege_missing": r.denied, "outcome": r.outcome, "trace": r.trace})
+				if sigs := violationSigs(r); len(sigs) > 0 {
+					rep.violating = append(rep.violating, r)
+				} else if isSampleCell(r.cell) {
+					rep.samples = append(rep.samples, r)
 				}
-				mu.Unlock()
 			}
+			reports[gi] = rep
 		})
+		var nGroupsOK int64
+		for gi := range reports {
+			rep := &reports[gi]
+			if !rep.done {
+				continue
+			}
+			nGroupsOK++
+			c.Add(rep.cells, rep.calls, rep.cells)
+			for _, e := range rep.engineErrs {
+				c.EngineError("%s", e)
+			}
+			for _, p := range rep.panics {
+				c.ExtraAdd("panics_in_portbase_code", 1)
+				fmt.Fprintf(os.Stderr, "note: panic in %s\n", p)
+			}
+			ocs := make([]string, 0, len(rep.outcomes))
+			for k := range rep.outcomes {
+				ocs = append(ocs, k)
+			}
+			sort.Strings(ocs)
+			for _, k := range ocs {
+				c.OutcomeN(k, rep.outcomes[k])
+			}
+			for _, k := range rep.nontrivial {
+				c.Nontrivial(k)
+			}
+			if rep.unsupp > 0 {
+				c.ExtraAdd("denied_cells_on_paths_the_backend_does_not_support", rep.unsupp)
+			}
+			for _, r := range rep.violating {
+				judge(c, r)
+				c.ExtraAdd(fmt.Sprintf("violating_cells[%s,%s,cache=%s]", r.cell.Backend, r.cell.Marking, r.cell.Cache), 1)
+			}
+			for _, r := range rep.samples {
+				c.Sample(map[string]any{"cell": r.cell, "privilege_missing": r.denied, "outcome": r.outcome, "trace": r.trace})
+			}
+		}
 		c.Extra("groups", len(groups))
 		c.Extra("groups_completed", nGroupsOK)
 		c.Extra("backends", func() []string {
@@ -1163,6 +1378,7 @@ func main() {
 			return s
 		}())
 		c.Extra("bounds", map[string]any{"flags_x_marking": len(flagMarkings), "reader_privileges": 4, "cache_settings": 4,
-			"interface_paths": len(ifacePaths), "api_paths": len(apiPaths), "record_types": recs, "key_depths": depths, "history_depth": "<= 3 privileged writes, <= 1 reader pre-access, 1 access, <= 3 privileged writes while a feed is open"})
+			"interface_paths": len(ifacePaths), "api_paths": len(apiPaths), "record_types": recs, "key_depths": depths,
+			"reader_option_variants": readerOpts, "groups_single_access": nSingle, "groups_two_accesses": len(groups) - nSingle, "caches_for_two_accesses": seqCaches, "history_depth": "<= 3 privileged writes, <= 1 reader pre-access, 1 access, <= 3 privileged writes while a feed is open"})
 	})
 }
